@@ -15,13 +15,14 @@ def parseOp (s : String) : Option Op :=
         | "n" => some (0, queueOfPrio 0) | "h" => some (1, queueOfPrio 1) | "m" => some (2, queueOfPrio 2)
         | "x" => some (9, 0)                 -- exit signal: sendExitMessage pushes into Urgent
         | "d" => some (8, queueOfPrio 1)     -- down notification: sent with High priority
+        | "g" => some (7, 3)                 -- log message: the Log queue
         | _ => none
       pq.map fun (p, q) => Op.push ⟨sn, p, q, sq⟩
     | _, _ => none
   | _ => none
 
 def showMsg (m : Msg) : String :=
-  let k := if m.prio = 0 then "n" else if m.prio = 1 then "h" else if m.prio = 2 then "m" else if m.prio = 9 then "x" else "d"
+  let k := if m.prio = 0 then "n" else if m.prio = 1 then "h" else if m.prio = 2 then "m" else if m.prio = 9 then "x" else if m.prio = 7 then "g" else "d"
   s!"{m.sender}.{k}.{m.seq}"
 
 def line (s : String) : String :=
